@@ -8,8 +8,8 @@
    "for every op list"; C14_recover_crash_images spells the instance out. Heights are >= 1
    (hypothesis heights_pos): height 0 is the registered finding height0-dropped, see
    C14_recover_pos_needed. *)
-From Coq Require Import List NArith Bool.
-From V Require Import C14.Model C14.Proofs C14.Proofs_inv C14.Proofs_run.
+From Coq Require Import List NArith Bool PeanoNat.
+From V Require Import C14.Frame C14.Model C14.Proofs C14.Proofs_inv C14.Proofs_run C14.Proofs_frame.
 Import ListNotations.
 Open Scope N_scope.
 
@@ -163,6 +163,156 @@ Theorem C14_flush_fail_clean_step : forall d m w,
 Proof. exact flush_fail_clean. Qed.
 Print Assumptions C14_flush_fail_clean_step.
 
+(* ====================================================================================================
+   Byte level: the record framing of one log file (Frame.v = Pebble's LogWriter / record.Reader, recyclable
+   chunk format). [crc] is ANY function (Pebble's masked CRC-32C when executed), [lognum] the low 32 bits
+   of the file number. These theorems replace the former hypothesis frame_detects_torn for crash images
+   that are byte prefixes of a written file.
+   ==================================================================================================== *)
+
+(* (a) round trip: whatever the payloads (empty, spanning several blocks, ending exactly at a block
+   boundary or fewer than a header before it), the reader returns exactly the written records and a
+   clean end; the same with the EOF trailer that Close appends *)
+Theorem C14_frame_roundtrip : forall (crc : bytes -> N) (lognum : N), lognum < W32 ->
+  forall rs : list bytes, decode crc lognum (encode crc lognum rs) = (rs, Clean).
+Proof. exact frame_roundtrip. Qed.
+Print Assumptions C14_frame_roundtrip.
+
+Theorem C14_frame_closed_roundtrip : forall (crc : bytes -> N) (lognum : N), lognum < W32 ->
+  forall rs : list bytes, decode crc lognum (encode_closed crc lognum rs) = (rs, Clean).
+Proof. exact frame_closed_roundtrip. Qed.
+Print Assumptions C14_frame_closed_roundtrip.
+
+(* (b) crash images, exact form: for EVERY n the first n bytes of a written file read as [cut_view rs n]:
+   the records that are complete within the cut (a prefix of rs), Torn / Clean, and the offset just
+   past the last complete record, all computed from the payload lengths alone (Frame.cut_spec):
+     n = 0 or n at the start of a record .......................... Clean
+     n inside the chunks of record k+1 ............................ Torn, records 1..k
+     n = end of the last chunk of record k ........................ Clean, records 1..k
+     1..6 bytes into the zero padding that follows record k ....... Torn, records 1..k  (harmless: all
+                                                                     records are complete; reopen cuts the tail)
+     7.. bytes into that padding, or all of it .................... Clean, records 1..k *)
+Theorem C14_frame_crash_image : forall (crc : bytes -> N) (lognum : N), lognum < W32 ->
+  forall (rs : list bytes) (n : nat),
+  decode_full crc lognum (firstn n (encode crc lognum rs)) = cut_view rs (N.of_nat n).
+Proof. exact frame_crash_image. Qed.
+Print Assumptions C14_frame_crash_image.
+
+(* ... in words: the result is a PREFIX of the written records (never a partial or altered record);
+   every record whose write had completed ([boundary rs j] = the offset WriteRecord returned for record j,
+   i.e. the synced offset) lies in that prefix; and a Clean verdict means no byte of a later record is in
+   the file *)
+Theorem C14_frame_crash_prefix : forall (crc : bytes -> N) (lognum : N), lognum < W32 ->
+  forall (rs : list bytes) (n : nat),
+  exists (k : nat) (st : tail_status) (g : N),
+    decode_full crc lognum (firstn n (encode crc lognum rs)) = (firstn k rs, st, g) /\
+    (k <= length rs)%nat /\
+    (forall j, (j <= length rs)%nat -> boundary crc lognum rs j <= N.of_nat n -> (j <= k)%nat) /\
+    (st = Clean -> (n <= length (encode crc lognum rs))%nat -> N.of_nat n <= boundary crc lognum rs k).
+Proof. exact frame_prefix. Qed.
+Print Assumptions C14_frame_crash_prefix.
+
+(* a cut exactly at a record boundary reads cleanly *)
+Theorem C14_frame_clean_at_boundary : forall (crc : bytes -> N) (lognum : N), lognum < W32 ->
+  forall (rs : list bytes) (j : nat), (j <= length rs)%nat ->
+  decode crc lognum (firstn (N.to_nat (boundary crc lognum rs j)) (encode crc lognum rs)) = (firstn j rs, Clean).
+Proof. exact frame_clean_at_boundary. Qed.
+Print Assumptions C14_frame_clean_at_boundary.
+
+(* every byte prefix of a CLOSED file (records ++ EOF trailer): as above inside the records, Torn inside
+   the trailer, Clean with the whole trailer; the valid length never includes the trailer *)
+Theorem C14_frame_closed_crash_image : forall (crc : bytes -> N) (lognum : N), lognum < W32 ->
+  forall (rs : list bytes) (n : nat),
+  decode_full crc lognum (firstn n (encode_closed crc lognum rs)) =
+  if (n <=? length (encode crc lognum rs))%nat then cut_view rs (N.of_nat n)
+  else (rs, (if (n <? length (encode crc lognum rs) + 11)%nat then Torn else Clean),
+        valid_len crc lognum (encode crc lognum rs)).
+Proof. exact frame_closed_crash_image_v. Qed.
+Print Assumptions C14_frame_closed_crash_image.
+
+(* the trailer ends the file for the reader whatever follows it *)
+Theorem C14_frame_trailer_ends_file : forall (crc : bytes -> N) (lognum : N), lognum < W32 ->
+  forall (rs : list bytes) (tail : bytes),
+  decode_full crc lognum (encode crc lognum rs ++ trailer lognum ++ tail) = decode_full crc lognum (encode crc lognum rs).
+Proof. exact frame_closed. Qed.
+Print Assumptions C14_frame_trailer_ends_file.
+
+(* what recoverLatestWALTail does - truncate the file to the reported valid length - leaves a file that
+   reads cleanly and returns the same records (Model.untear_last: same batches, flag cleared) *)
+Theorem C14_frame_truncate_to_valid_is_clean : forall (crc : bytes -> N) (lognum : N), lognum < W32 ->
+  forall (rs : list bytes) (n : nat),
+  let b := firstn n (encode crc lognum rs) in
+  let '(recs, _, g) := decode_full crc lognum b in
+  g <= N.of_nat n /\ decode_full crc lognum (firstn (N.to_nat g) b) = (recs, Clean, g).
+Proof. exact frame_truncate_valid. Qed.
+Print Assumptions C14_frame_truncate_to_valid_is_clean.
+
+(* (c) corruption of one chunk. Any chunk of the file whose length, type and log number fields are intact
+   but whose stored checksum c0..c3 is not the checksum of its (possibly altered) type / log number / payload
+   bytes stops the reader: the records completed before it are returned, nothing after it, invalid tail.
+   The hypothesis on crc is explicit and about these two byte strings only; no cryptographic claim. *)
+Theorem C14_frame_bad_checksum_detected : forall (crc : bytes -> N) (lognum : N), lognum < W32 ->
+  forall (rs : list bytes) (its1 : list item) (ty : N) (f : bytes) (its2 : list item)
+         (c0 c1 c2 c3 : N) (f' : bytes) (tail : bytes),
+  layout 0 rs = its1 ++ IChunk ty f :: its2 -> nlen f' = nlen f ->
+  le32d c0 c1 c2 c3 <> crc (body lognum ty f') mod W32 ->
+  exists k, (k <= length rs)%nat /\
+    decode crc lognum (iflat crc lognum its1 ++ c0 :: c1 :: c2 :: c3 :: le16 (nlen f') ++ body lognum ty f' ++ tail)
+    = (firstn k rs, Torn).
+Proof. exact frame_bad_checksum. Qed.
+Print Assumptions C14_frame_bad_checksum_detected.
+
+(* the instance "the payload bytes of one chunk were altered, everything else is as written" *)
+Theorem C14_frame_payload_corruption_detected : forall (crc : bytes -> N) (lognum : N), lognum < W32 ->
+  forall (rs : list bytes) (its1 : list item) (ty : N) (f : bytes) (its2 : list item) (f' : bytes),
+  layout 0 rs = its1 ++ IChunk ty f :: its2 -> nlen f' = nlen f ->
+  crc (body lognum ty f') mod W32 <> crc (body lognum ty f) mod W32 ->
+  exists k, (k <= length rs)%nat /\
+    decode crc lognum (iflat crc lognum its1 ++ (le32 (crc (body lognum ty f)) ++ le16 (nlen f) ++ body lognum ty f')
+                       ++ iflat crc lognum its2) = (firstn k rs, Torn).
+Proof. exact frame_payload_corruption. Qed.
+Print Assumptions C14_frame_payload_corruption_detected.
+
+(* ---------- the link to the record-level model: frame_detects_torn, now a theorem ----------
+   [enc] / [dec] stand for walstore's batch codec (codec.go over batchrepr); only dec (enc b) = b is used.
+   Model.file_of_bytes reads a log file into the model's [file]. For EVERY byte prefix of a file that holds the
+   batches [bats] the result is mkFile num (complete batches) torn?: the complete batches are a prefix of
+   bats that contains every batch written below the cut, and the flag is set whenever a byte of a further
+   batch is present - exactly the disk type of Model.v. *)
+Theorem C14_frame_detects_torn : forall (crc : bytes -> N) (enc : batch -> bytes) (dec : bytes -> batch),
+  (forall b, dec (enc b) = b) ->
+  forall (num : N) (bats : list batch) (n : nat),
+  let lognum := num mod W32 in
+  let rs := map enc bats in
+  exists (k : nat) (torn : bool), (k <= length bats)%nat /\
+    file_of_bytes crc dec num (firstn n (encode crc lognum rs)) = mkFile num (firstn k bats) torn /\
+    (forall j, (j <= length bats)%nat -> boundary crc lognum rs j <= N.of_nat n -> (j <= k)%nat) /\
+    (torn = false -> (n <= length (encode crc lognum rs))%nat -> N.of_nat n <= boundary crc lognum rs k).
+Proof. exact frame_file_of_prefix. Qed.
+Print Assumptions C14_frame_detects_torn.
+
+(* the crash images of one flush (file with the synced batches [bats], batch [b] being appended, cut anywhere
+   at or after the synced offset) are the files of Model.flush_core: d1 (nothing written), [torn]
+   (CPTorn), [landed] (CPFull), or landed + invalid tail (cut 1..6 bytes into the padding after b); never a
+   partial batch *)
+Theorem C14_frame_inflight_images : forall (crc : bytes -> N) (enc : batch -> bytes) (dec : bytes -> batch),
+  (forall b, dec (enc b) = b) ->
+  forall (num : N) (bats : list batch) (b : batch) (n : nat),
+  let lognum := num mod W32 in
+  let synced := length (encode crc lognum (map enc bats)) in
+  let f0 := mkFile num bats false in
+  (synced <= n)%nat ->
+  let f := file_of_bytes crc dec num (firstn n (encode crc lognum (map enc (bats ++ [b])))) in
+  (f = f0 /\ n = synced) \/ f = set_torn f0 \/ f = add_batch b f0 \/ f = set_torn (add_batch b f0).
+Proof. exact frame_inflight_images. Qed.
+Print Assumptions C14_frame_inflight_images.
+
+(* ... and the fourth shape is immaterial: reopening ignores the invalid-tail flag of the latest file *)
+Theorem C14_reopen_ignores_last_torn_flag : forall (fs : list file) (f : file) (wm : option N) (tmp : bool),
+  reopen_obs (mkDisk (fs ++ [set_torn f]) wm tmp) = reopen_obs (mkDisk (fs ++ [f]) wm tmp).
+Proof. exact reopen_last_flag. Qed.
+Print Assumptions C14_reopen_ignores_last_torn_flag.
+
 (* ---------- non-vacuity and witnesses (vm_compute) ---------- *)
 Fixpoint heights (n : nat) (h : N) : list op :=
   match n with
@@ -218,3 +368,57 @@ Example dinv_nontrivial :
   DInv (mkDisk [mkFile 1 [(1, [REntry 3 1; REntry 7 2])] false; mkFile 2 [(3, [RPrune 4; REntry 7 3])] true] (Some 2) true)
        [REntry 3 1; REntry 7 2; RPrune 2; RPrune 4; REntry 4 9; REntry 7 3].
 Proof. constructor; vm_compute; reflexivity. Qed.
+
+(* ---------- byte level: witnesses ---------- *)
+(* the check value of CRC-32C ("123456789" -> 0xE3069283) and Pebble's masked value of it *)
+Example C14_crc32c_check_value :
+  crc32c [49; 50; 51; 52; 53; 54; 55; 56; 57] = 3808858755 /\
+  pebble_crc [49; 50; 51; 52; 53; 54; 55; 56; 57] = 3347755237.
+Proof. vm_compute. split; reflexivity. Qed.
+
+(* two records (one empty) in file 1: the bytes, every region of cuts *)
+Example C14_frame_small_file :
+  let rs := [[1; 2; 3]; []] in
+  encode pebble_crc 1 rs = [148; 37; 91; 3; 3; 0; 5; 1; 0; 0; 0; 1; 2; 3; 158; 107; 165; 189; 0; 0; 5; 1; 0; 0; 0] /\
+  decode_full pebble_crc 1 (encode pebble_crc 1 rs) = (rs, Clean, 25) /\
+  decode_full pebble_crc 1 (firstn 13 (encode pebble_crc 1 rs)) = ([], Torn, 0) /\
+  decode_full pebble_crc 1 (firstn 14 (encode pebble_crc 1 rs)) = ([[1; 2; 3]], Clean, 14) /\
+  decode_full pebble_crc 1 (firstn 20 (encode pebble_crc 1 rs)) = ([[1; 2; 3]], Torn, 14) /\
+  decode_full pebble_crc 1 (firstn 30 (encode_closed pebble_crc 1 rs)) = (rs, Torn, 25) /\
+  decode_full pebble_crc 1 (encode_closed pebble_crc 1 rs) = (rs, Clean, 25).
+Proof. vm_compute. repeat split. Qed.
+
+(* a record that leaves 7 bytes in its block (zero padding), then one that starts the next block; and a
+   record that leaves exactly 11 bytes: the next record's FIRST chunk carries no payload *)
+Example C14_frame_block_padding :
+  let sm := fun x : list bytes * tail_status * N => (map nlen (fst (fst x)), snd (fst x), snd x) in
+  let r1 := N.iter 32750 (cons 7) [] in let rs := [r1; [9]] in
+  sm (cut_view rs 32760) = ([], Torn, 0) /\ sm (cut_view rs 32761) = ([32750], Clean, 32761) /\
+  sm (cut_view rs 32764) = ([32750], Torn, 32761) /\ sm (cut_view rs 32768) = ([32750], Clean, 32761) /\
+  sm (cut_view rs 32769) = ([32750], Torn, 32761) /\ sm (cut_view rs 32780) = ([32750; 1], Clean, 32780) /\
+  sm (decode_full pebble_crc 3 (firstn (N.to_nat 32764) (encode pebble_crc 3 rs))) = ([32750], Torn, 32761) /\
+  sm (decode_full pebble_crc 3 (firstn (N.to_nat 32768) (encode pebble_crc 3 rs))) = ([32750], Clean, 32761) /\
+  map isize (layout 0 [N.iter 32746 (cons 7) []; [9]]) = [32757; 11; 12].
+Proof. vm_compute. repeat split. Qed.
+
+(* the hypothesis of C14_frame_payload_corruption_detected is needed: with a checksum that does not
+   distinguish the two byte strings the altered record is returned as if it had been written *)
+Example C14_frame_corruption_hypothesis_needed :
+  let crc0 := fun _ : bytes => 0 in
+  layout 0 [[1; 2; 3]] = [] ++ IChunk 5 [1; 2; 3] :: [] /\
+  decode crc0 1 (iflat crc0 1 [] ++ (le32 (crc0 (body 1 5 [1; 2; 3])) ++ le16 3 ++ body 1 5 [1; 2; 4]) ++ iflat crc0 1 [])
+  = ([[1; 2; 4]], Clean).
+Proof. vm_compute. split; reflexivity. Qed.
+
+(* observation (Pebble's reader, not a violation of the property): the log number is compared BEFORE the
+   checksum is verified, so a chunk header whose log-number field reads number + 1 is taken for the EOF
+   trailer even when its checksum is wrong. One flipped bit (byte 19 below: 2 -> 3) in the first chunk of
+   the second record of file 2 makes the reader report a CLEAN end after the first record; a checksum
+   failure would have reported an invalid tail. (The harness replays this on the real reader.) *)
+Example C14_frame_lognum_flip_reads_as_clean_end :
+  let b := encode pebble_crc 2 [[1]; [2]; [3]] in
+  nth 19 b 0 = 2 /\
+  decode pebble_crc 2 b = ([[1]; [2]; [3]], Clean) /\
+  decode pebble_crc 2 (firstn 19 b ++ [3] ++ skipn 20 b) = ([[1]], Clean) /\
+  decode pebble_crc 2 (firstn 20 b ++ [1] ++ skipn 21 b) = ([[1]], Torn).
+Proof. vm_compute. repeat split. Qed.
